@@ -87,10 +87,8 @@ func init() {
 		Cases: func(tier string) []Case {
 			var cases []Case
 			for _, t := range validTemplates {
-				devs := []string{"0", "1"}
-				if tier == "thorough" {
-					devs = []string{"0", "1", "2"}
-				}
+				// two declarations may deviate from the template's types (the thorough bound costs seconds here)
+				devs := []string{"0", "1", "2"}
 				for _, d := range devs {
 					cases = append(cases, Case{ID: "types dev=" + d + " " + strings.ReplaceAll(t, "\n", " "), Pkg: "internal/interpreter", Fn: "ZZC17", Args: []string{t, d}, Tag: "declared-types"})
 				}
@@ -104,7 +102,7 @@ func init() {
 			return cases
 		},
 		Bounds: stdBounds(
-			map[string]interface{}{"templates": "13 valid + 65 edited scripts", "declared_types": "at most one declaration deviates from the required type, over all 6 types and all declarations", "values": "numbers and monetary amounts: every integer; other types: one value each; balances symbolic"},
+			map[string]interface{}{"templates": "13 valid + 65 edited scripts", "declared_types": "at most two declarations deviate from the required type (all pairs, all 36 type pairs)", "values": "numbers and monetary amounts: every integer; other types: one value each; balances symbolic"},
 			map[string]interface{}{"templates": "13 valid + 61 edited scripts", "declared_types": "at most two declarations deviate (all pairs, all 36 type pairs)"}),
 		Assumptions: []string{"variable values are well-typed for the declared types", "metadata used by meta() origins holds well-formed values under keys k, m, acc, p, s, as", "the experimental overdraft flag is on"},
 		Stubs:       apiStubs, Outside: []string{"scripts outside the template lists", "more than two mis-declared variables at once"},
